@@ -13,6 +13,9 @@ with the compiled model; the oracle (independent of the model) checks the laws o
 on the implementation's snapshots alone.
 
 Round 3: the edits also move objects from one side to the other (see `cross_move`, `move_law`).
+Round 4: copies put back into the tree of their original and ids repeated along a path (`nest_ops`,
+`dup_ids`); the counterfactual clause (`counterfactual`): each case of the stream `+cf` is also run without
+the operations of one side, and the other side must behave the same - state no snapshot shows included.
 """
 import os
 import shutil
@@ -59,7 +62,12 @@ FREE_OPS = ("insert", "reorder", "set_card", "prop_extend", "prop_remove", "prop
             # entry point that re-parents an object), children grown in one twin, the twin of a
             # child given to remove, the child lists edited through the list objects handed out
             "cross_move", "cross_move", "cross_move", "grow", "grow", "remove_twin", "child_list_edit",
-            "values_across", "values_across")
+            "values_across", "values_across",
+            # round 4: the merged state of a Section taken back directly
+            "unmerge")
+# operations that have operands on both sides (or choose by what the other side holds): not part of
+# the histories of the counterfactual stream, in which each side must evolve on its own
+BOTH_SIDES_OPS = ("cross_move", "grow", "remove_twin", "merge_across", "values_across")
 CROSS_HOWS = ("append", "append", "insert", "insert", "extend1", "extend_tuple", "extend_iter", "extend2",
               "parent", "parent", "setitem", "extend_childlist")
 GROW_HOWS = ("new_append", "create", "ctor_parent", "new_insert", "new_parent")
@@ -178,6 +186,13 @@ class World(object):
         self.side_obj = {}       # table index -> "orig" / "copy"
         self.side_list = {}
         self.list_family = {}
+        self.scrub = None        # private temp directory of the case: not part of what is observed
+
+    def attrs(self, obj, kind):
+        out = attrs_of(obj, kind)
+        if self.scrub:
+            out = [a.replace(self.scrub, "<tmp>") for a in out]
+        return out
 
     def idx(self, obj):
         for i, o in enumerate(self.objs):
@@ -211,7 +226,7 @@ class World(object):
             return {"h": self.idx(obj), "k": kind, "n": "<too deep>", "id": "<too deep>", "a": [],
                     "v": None, "m": None, "s": [], "p": [], "too_deep": True}
         node = {"h": self.idx(obj), "k": kind, "n": "" if kind == "doc" else obj.name, "id": obj.id,
-                "a": attrs_of(obj, kind), "v": None, "m": None, "s": [], "p": []}
+                "a": self.attrs(obj, kind), "v": None, "m": None, "s": [], "p": []}
         if kind == "prop":
             node["v"] = enc_values(obj.values)
         if kind == "sec":
@@ -240,7 +255,7 @@ class World(object):
             kind = kind_of(o)
             par = o.parent if kind != "doc" else None
             ent = {"kind": kind, "name": "" if kind == "doc" else o.name, "id": o.id,
-                   "attrs": attrs_of(o, kind), "parent": self.idx(par) if par is not None else None,
+                   "attrs": self.attrs(o, kind), "parent": self.idx(par) if par is not None else None,
                    "vals": None, "merged": None}
             if kind == "prop":
                 ent["vals"] = [{"t": [str(x) for x in v]} if isinstance(v, list) else {"a": enc_atom(v)}
@@ -252,9 +267,10 @@ class World(object):
         return out
 
 
-def build_doc(spec):
+def build_doc(spec, inc_url=None):
     import odml
-    doc = odml.Document(author=spec.get("author"), version=spec.get("version"), date=spec.get("date"))
+    doc = odml.Document(author=spec.get("author"), version=spec.get("version"), date=spec.get("date"),
+                        oid=spec.get("oid"))
 
     def add_sec(parent, s):
         # "ulink": the link is given to the constructor, which stores it unresolved
@@ -278,11 +294,19 @@ def build_doc(spec):
             add_sec(sec, sub)
         if s.get("link"):
             links.append((sec, s["link"]))
+        if s.get("inc") and inc_url is not None:
+            incs.append((sec, inc_url + "#" + s["inc"]))
         return sec
 
     links = []
+    incs = []
     for s in spec.get("sections", []):
         add_sec(doc, s)
+    for sec, target in incs:
+        try:
+            sec.include = target               # public setter: loads the file, merges the Section at once
+        except Exception:
+            pass
     if spec.get("finalize"):
         for sec, path in links:
             try:
@@ -454,6 +478,11 @@ class Gen(object):
             (0.04, self.round3("cross_move", seed)),
             (0.03, self.round3("grow", seed)),
             (0.02, self.round3("remove_twin", seed)),
+            # round 4: a copy is put back into the tree it was taken from (below its original, a
+            # descendant or an ancestor of it), objects inside such a copy are exported
+            (0.02, {"o": "append", "p": self.sel(r.choice(["lastsrc", "lastsrc_tree", "lastsrc_up"])),
+                    "x": self.sel("lastcopy")}),
+            (0.02, {"o": "export", "x": self.sel("in_lastcopy")}),
         ]
         tot = sum(w for w, _ in table)
         y = r.random() * tot
@@ -564,6 +593,237 @@ class Gen(object):
                 out.append(t)
         return out
 
+    # -- round 4 ------------------------------------------------------------------------------
+    def dup_ids(self, d):
+        """Ids that occur more than once in one document (a file that repeats an id, the result of
+        clone(keep_id=True) put into the same tree): along a path - a Section with the id of its
+        parent, of a farther ancestor or of the Document, a Property with the id of its Section or of
+        an ancestor - and among siblings. Only named objects (an unnamed one is named by its id)."""
+        r = self.r
+        if r.random() < 0.6:
+            d["oid"] = self.oid()
+
+        def walk(s, anc):
+            known = [a for a in anc if a]
+            if s.get("name") is not None and known and r.random() < 0.4:
+                s["oid"] = r.choice([known[-1], known[-1], known[0], r.choice(known)])
+            mine = s.get("oid")
+            prev = None
+            for p in s["props"]:
+                cands = known + ([mine] * 3 if mine else []) + ([prev] if prev else [])
+                if p.get("name") is not None and cands and r.random() < 0.25:
+                    p["oid"] = r.choice(cands)
+                prev = p.get("oid")
+            prev = None
+            for sub in s["sections"]:
+                walk(sub, anc + [mine])
+                if prev and sub.get("name") is not None and r.random() < 0.15:
+                    sub["oid"] = prev
+                prev = sub.get("oid")
+        for s in d["sections"]:
+            walk(s, [d.get("oid")])
+        return d
+
+    def nest_ops(self):
+        """A copy is made and put back into the tree of its original: below the original itself,
+        below a descendant, beside it (renamed), below an ancestor; a copy of a Property beside the
+        Property; once or twice (a snapshot inside a snapshot). With keep_id the path to the nested
+        copy carries the same id more than once."""
+        r = self.r
+        out = []
+        for rnd in range(r.choice([1, 1, 2])):
+            is_prop = r.random() < 0.2
+            if rnd == 0 or r.random() < 0.4:
+                x = self.sel("prop" if is_prop else "sec")
+            else:
+                x = self.sel(r.choice(["lastcopy", "in_lastcopy", "lastsrc"]))
+            out.append({"o": "clone", "x": x, "children": r.random() < 0.85, "keep": r.random() < 0.7,
+                        "style": r.choice(["kw", "kw", "pos"])})
+            where = r.choice(["lastsrc", "lastsrc", "lastsrc", "lastsrc_tree", "lastsrc_par", "lastsrc_up"])
+            if is_prop:
+                where = r.choice(["lastsrc_par", "lastsrc_par", "lastsrc_up", "cont"])
+            if r.random() < (0.85 if where == "lastsrc_par" else 0.4):
+                out.append({"o": "rename", "x": self.sel("lastcopy"),
+                            "new": r.choice(["snap", "snapshot", "k", "ab", u"c\u00f6py"])})
+            if r.random() < 0.2:
+                out.append(self.edit(False))
+            out.append({"o": "append", "p": self.sel(where), "x": self.sel("lastcopy")})
+        return out
+
+    def all_oids(self, d):
+        """Every object gets an id of its own in the spec (unnamed objects are named by their id: the
+        names are then the same in every run of the case)."""
+        def walk(s):
+            s.setdefault("oid", self.oid())
+            for p in s["props"]:
+                p.setdefault("oid", self.oid())
+            for sub in s["sections"]:
+                walk(sub)
+        d.setdefault("oid", self.oid())
+        for s in d["sections"]:
+            walk(s)
+
+    def link_doc(self):
+        """A document with resolved (or still unresolved) links in many configurations: the target
+        carries a definition / reference, the linking Section has none, the same one or one of its
+        own; both have an equally named sub-Section (merged recursively); one or two links, to the
+        same target or in a row; the linking Section at the top level or one level down."""
+        r = self.r
+        d = self.doc(linked=False)
+        used = [s["name"] for s in d["sections"]]
+        while len(d["sections"]) < 2 + (r.random() < 0.4):
+            nm = [n for n in NAMES + ["t1", "t2"] if n not in used][0]
+            used.append(nm)
+            d["sections"].append(self.sec(nm, 1, [r.choice([1, 3]), False]))
+        secs = d["sections"]
+        tgt = secs[1]
+        srcs = [secs[0]]
+        if secs[0]["sections"] and secs[0]["sections"][0].get("name") and r.random() < 0.3:
+            srcs = [secs[0]["sections"][0]]
+        if len(secs) > 2 and r.random() < 0.6:
+            srcs.append(secs[2])
+        for k, src in enumerate(srcs):
+            goal = tgt
+            if k == 1 and r.random() < 0.4:
+                # links in a row: the target of the first link is itself linked to the third Section
+                src, goal = tgt, secs[2]
+            if r.random() < 0.85:
+                goal["definition"] = r.choice(["def of target", "a", u"d\u00e9f"])
+            if r.random() < 0.5:
+                goal["reference"] = r.choice(["ref of target", "b"])
+            x = r.random()
+            if x < 0.6:
+                src.pop("definition", None)
+                src.pop("reference", None)
+            elif x < 0.75 and goal.get("definition"):
+                src["definition"] = goal["definition"]
+            if r.random() < 0.5:
+                src["type"] = goal["type"]
+            if r.random() < 0.75:
+                names = [p["name"] for p in goal["props"]]
+                for p in src["props"]:
+                    if p.get("name") is not None and p["name"] in names:
+                        p["name"] = "s_" + p["name"]
+            if r.random() < 0.5:
+                if not any(x.get("name") == "sub" for x in goal["sections"]):
+                    goal["sections"].append({"name": "sub", "type": "t", "definition": "def of sub",
+                                             "props": [{"name": "sp", "dtype": "int", "values": [1]}],
+                                             "sections": []})
+                if r.random() < 0.6 and not any(x.get("name") == "sub" for x in src["sections"]):
+                    src["sections"].append({"name": "sub", "type": "t", "sections": [],
+                                            "props": [{"name": "own", "dtype": "string", "values": ["o"]}]})
+            src.pop("link", None)
+            src.pop("ulink", None)
+            if r.random() < 0.85:
+                src["link"] = "/" + goal["name"]
+                d["finalize"] = True
+            else:
+                src["ulink"] = "/" + goal["name"]
+        self.all_oids(d)
+        return d
+
+    def inc_pair(self):
+        """(terminology document, document): Sections of the document include Sections of the
+        terminology file - the other way the library merges a Section with another one."""
+        r = self.r
+        term = self.doc(linked=False)
+        for t in term["sections"]:
+            t["name"] = "T" + t["name"]
+            if r.random() < 0.85:
+                t["definition"] = r.choice(["def of term", "a"])
+            if r.random() < 0.5:
+                t["reference"] = r.choice(["ref of term", "b"])
+        d = self.doc(linked=False)
+        for k, src in enumerate(d["sections"][:r.choice([1, 1, 2])]):
+            goal = r.choice(term["sections"])
+            if r.random() < 0.6:
+                src.pop("definition", None)
+                src.pop("reference", None)
+            if r.random() < 0.75:
+                names = [p["name"] for p in goal["props"]]
+                for p in src["props"]:
+                    if p.get("name") is not None and p["name"] in names:
+                        p["name"] = "s_" + p["name"]
+            src["inc"] = "/" + goal["name"]
+        self.all_oids(term)
+        self.all_oids(d)
+        return term, d
+
+    def cf_ops(self):
+        """Histories for the counterfactual stream: both sides are edited in turn; what the link
+        resolution has left in a Section is taken back, set up again and edited (clean, unmerge, the
+        link set and unset, finalize, merge, definition / reference written), between ordinary edits.
+        No operation has operands on both sides."""
+        r = self.r
+        out = []
+        for _ in range(r.randrange(3, 10)):
+            x = r.random()
+            if x < 0.35:
+                op = self.free_op("clean")
+                op["p"] = self.sel(r.choice(["mroot", "mroot", "merged", "cont"]))
+            elif x < 0.45:
+                op = self.free_op("unmerge")
+            elif x < 0.57:
+                op = self.free_op(r.choice(["set_link", "set_link", "finalize", "sec_merge"]))
+            elif x < 0.67:
+                op = {"o": "set_attr", "x": self.sel(r.choice(["merged", "sec"])), "which": r.choice([1, 2]),
+                      "val": r.choice(["def of target", "mine", "none"])}
+            elif x < 0.75:
+                op = {"o": r.choice(["clone", "export"]), "x": self.sel(r.choice(["merged", "secprop"])),
+                      "children": r.random() < 0.7, "keep": r.random() < 0.4, "style": "kw"}
+            else:
+                op = self.edit(r.random() < 0.5)
+                while op["o"] in BOTH_SIDES_OPS or op.get("via_handler"):
+                    op = self.edit(r.random() < 0.5)
+            op["sd"] = r.choice(["copy", "orig"])
+            out.append(op)
+        return out
+
+    def unlinked(self, d):
+        """A copy of the document spec without its links; most Sections carry a definition."""
+        import json
+        d = json.loads(json.dumps(d))
+        d.pop("finalize", None)
+
+        def walk(sec):
+            for key in ("link", "ulink", "inc"):
+                sec.pop(key, None)
+            if self.r.random() < 0.6:
+                sec.setdefault("definition", self.r.choice(["def of target", "a", u"d\u00e9f"]))
+            if self.r.random() < 0.3:
+                sec.setdefault("reference", self.r.choice(["ref of target", "b"]))
+            for sub in sec["sections"]:
+                walk(sub)
+        for sec in d["sections"]:
+            walk(sec)
+        return d
+
+    def late_merge(self, out):
+        """A directed history woven into `out` (the order of the four steps is kept): a Section that
+        was NOT merged when the copy was made is linked on one side after the copy; its counterpart on
+        the other side (same position: the same selector numbers pick it when the copy is a copy of
+        the Document) gets a definition / reference of its own - possibly the very text the link has
+        filled in over there -, is merged itself and cleaned. Whatever the merge on the first side has
+        recorded must not count on the second side."""
+        r = self.r
+        n, m = r.randrange(1000), r.randrange(1000)
+        sa = r.choice(["copy", "orig"])
+        sb = "orig" if sa == "copy" else "copy"
+        link_a = dict(self.free_op("set_link"), y={"sel": "sec", "n": n}, l=m, pos=0, sd=sa)
+        own = {"o": "set_attr", "x": {"sel": "sec", "n": n}, "which": r.choice([1, 1, 2]),
+               "val": r.choice(["def of target", "a", "ref of target", "b", u"d\u00e9f"]), "sd": sb}
+        if r.random() < 0.7:
+            own["from"] = m                    # the text the Section that will be linked carries
+        if r.random() < 0.7:
+            merge_b = dict(self.free_op("set_link"), y={"sel": "sec", "n": n}, l=m, pos=0, sd=sb)
+        else:
+            merge_b = dict(self.free_op("sec_merge"), p={"sel": "sec", "n": n}, pos=m % 50, sd=sb)
+        clean_b = dict(self.free_op("clean"), p={"sel": r.choice(["sec", "mroot"]), "n": n}, sd=sb)
+        at = sorted(r.randrange(0, len(out) + 1) for _ in range(4))
+        for k, op in enumerate([link_a, own, merge_b, clean_b]):
+            out.insert(at[k] + k, op)
+        return out
+
     def ops(self, n, free, mixed=False, handler=False):
         out = [self.edit(free) for _ in range(n)]
         if mixed:
@@ -597,15 +857,46 @@ class Exec(object):
         self.loaded = None
         self.twin = {}           # table index -> index of the object it was copied from / to
         self.moved = []          # objects that have changed sides
+        self.last_clone = {}     # side of the result -> (table index of the source, of the copy)
+        self.guarded = False     # an operation was left out because the case has grown too large
+        self.tmps = []           # private temp directories of the case
 
     def pick(self, sel, side):
         w = self.w
         what = sel["sel"]
         kinds = {"sec": ("sec",), "prop": ("prop",), "cont": ("doc", "sec", "sec"), "any": ("doc", "sec", "prop"),
                  "secprop": ("sec", "prop"), "child": ("sec", "prop"), "tupprop": ("prop",),
-                 "doc": ("doc",), "moved": ("sec", "prop")}[what]
+                 "doc": ("doc",), "moved": ("sec", "prop"),
+                 # round 4: relative to the most recent copy made on this side; merged Sections
+                 "lastcopy": ("sec", "prop"), "in_lastcopy": ("sec", "prop"), "lastsrc": ("sec", "prop"),
+                 "lastsrc_tree": ("doc", "sec"), "lastsrc_par": ("doc", "sec"), "lastsrc_up": ("doc", "sec"),
+                 "merged": ("sec",), "mroot": ("doc", "sec")}[what]
         cands = [i for i, o in enumerate(w.objs) if w.side_obj.get(i) == side and w.idx(o) == i
                  and kind_of(o) in kinds]
+        if what in ("lastcopy", "in_lastcopy", "lastsrc", "lastsrc_tree", "lastsrc_par", "lastsrc_up"):
+            src, ret = self.last_clone.get(side, (None, None))
+            rel = []
+            if src is not None:
+                if what == "lastcopy":
+                    rel = [ret]
+                elif what == "in_lastcopy":
+                    rel = self.subtree(w.objs[ret])
+                elif what == "lastsrc":
+                    rel = [src]
+                elif what == "lastsrc_tree":
+                    inside = set(self.subtree(w.objs[ret]))
+                    rel = [h for h in self.subtree(w.objs[src]) if h not in inside]
+                elif what == "lastsrc_par":
+                    rel = [w.idx(a) for a in ancestors(w.objs[src])[1:2]]
+                else:
+                    rel = [w.idx(a) for a in ancestors(w.objs[src])[1:]]
+            rel = [h for h in rel if h in cands]
+            cands = rel or cands
+        if what in ("merged", "mroot"):
+            mg = [i for i in cands if kind_of(w.objs[i]) == "sec" and w.objs[i].get_merged_equivalent() is not None]
+            if what == "mroot":
+                mg = [i for i in cands if w.objs[i].parent is None] + mg
+            cands = mg or cands
         if what == "moved":
             # objects that came over from the other side, most recent first, if there are any
             mv = [i for i in reversed(self.moved) if i in cands]
@@ -675,6 +966,7 @@ class Exec(object):
             except Exception as exc:
                 eq = "raised " + fw.exc_name(exc)
             self.pair(obj, ret, True)
+            self.last_clone[side] = (x, w.idx(ret))
             return {"ret": w.idx(ret), "src": x, "eq": eq}
         return self.do(rop, fn, reg)
 
@@ -910,6 +1202,11 @@ class Exec(object):
                              "val_cardinality"]}[kind]
             key = keys[op["which"] % len(keys)]
             val = op["val"]
+            if op.get("from") is not None and not key.endswith("cardinality"):
+                # the value another Section of this side carries for the attribute, if it has one
+                other = self.pick({"sel": "sec", "n": op["from"]}, side)
+                if other is not None and isinstance(getattr(w.objs[other], key, None), str):
+                    val = getattr(w.objs[other], key)
             if key.endswith("cardinality"):
                 val = {"card1": (1, 3), "card2": (None, 2)}.get(val, None)
             elif val in ("card1", "card2", "none"):
@@ -1149,6 +1446,7 @@ class Exec(object):
         q = self.pick(op["q"], side)
         rop = {"o": o, "free": True}
         if o in ("sec_merge", "merge_across", "set_link", "finalize") and len(w.objs) > 300:
+            self.guarded = True
             return                              # these copy whole subtrees: keep the case small
         if o in ("insert", "extend", "create_section", "create_property", "clean", "sec_merge") and p is None:
             return
@@ -1191,13 +1489,20 @@ class Exec(object):
             return self.do(rop, fn)
         if o == "clean":
             return self.do(rop, lambda: w.objs[p].clean())
+        if o == "unmerge":
+            # what clean() does for a merged Section, called directly
+            y = self.pick({"sel": "merged", "n": op["l"]}, side)
+            if y is None or w.objs[y].get_merged_equivalent() is None:
+                return
+            return self.do(rop, lambda: w.objs[y].unmerge(w.objs[y].get_merged_equivalent()))
         if o == "sec_merge":
             other = self.pick({"sel": "sec", "n": op["pos"] + 7}, side)
             if other is None or kind_of(w.objs[p]) != "sec" or other == p:
                 return
 
             def fn():
-                w.objs[p].merge(w.objs[other], strict=False)
+                # (strict or not: with strict the attributes of equally named Properties must agree)
+                w.objs[p].merge(w.objs[other], strict=op.get("how", 1) % 4 == 0)
             ret = self.do(rop, fn)
             self.reregister(side)
             return ret
@@ -1454,6 +1759,7 @@ class Exec(object):
     def write_xml(self, doc, fname):
         from odml.tools.odmlparser import ODMLWriter
         tmp = tempfile.mkdtemp(prefix="c11_")
+        self.tmps.append(tmp)
         tempfile.tempdir = tmp                    # the library's cache directory goes there too
         path = os.path.join(tmp, fname)
         ODMLWriter("XML").write_file(doc, path)
@@ -1466,7 +1772,24 @@ class Exec(object):
         old_tmp = tempfile.tempdir
         term_url = None
         try:
-            doc = build_doc(case["doc"])
+            term_doc = None
+            if case.get("term") is not None:
+                # a terminology file in a private directory; Sections of the document include
+                # Sections of it (resolved when the document is built). The cached terminology
+                # document is part of the original side.
+                try:
+                    import odml.terminology as terminology
+                    tmp, url = self.write_xml(build_doc(case["term"]), "terms.xml")
+                    term_doc = terminology.load(url)
+                    term_url = url
+                    if term_doc is None or len(term_doc.sections) == 0:
+                        return {"skipped": "terminology could not be loaded"}
+                except Exception as exc:
+                    return {"skipped": "terminology preparation failed: %s" % fw.exc_name(exc)}
+                w.scrub = tmp
+                doc = build_doc(case["doc"], inc_url=url)
+            else:
+                doc = build_doc(case["doc"])
             first = case["first"]
             pre = case.get("pre", [])
             if first["o"] == "template":
@@ -1489,6 +1812,8 @@ class Exec(object):
                         and w.idx(o) == i]
                 if tops:
                     x = tops[first["root"] % len(tops)]
+                    if "x" in first and self.pick(first["x"], "orig") in tops:
+                        x = self.pick(first["x"], "orig")
                     name = w.objs[x].name
                     if first.get("style") == "pos":
                         via = lambda: handler.clone_section(url, name, first["children"], first["keep"])
@@ -1532,16 +1857,23 @@ class Exec(object):
                     self.reregister("copy")
             else:
                 w.register_tree(doc, "orig")
+                if term_doc is not None:
+                    w.register_tree(term_doc, "orig")
                 init = w.init_table()
                 self.record(None, None)
                 for op in pre:                     # what happened to the original before the copy
                     self.edit(op, "orig")
                 if first["o"] == "clone":
-                    x = first["root"] % len(w.objs)
+                    x = self.pick(first["x"], "orig") if "x" in first else None
+                    if x is None:
+                        x = first["root"] % len(w.objs)
                     self.op_clone(x, first["children"], first["keep"], "copy", style=first.get("style", "kw"))
                 elif first["o"] == "export":
                     cands = [i for i, o in enumerate(w.objs) if kind_of(o) != "doc"]
-                    self.op_export(cands[first["root"] % len(cands)], "copy")
+                    x = self.pick(first["x"], "orig") if "x" in first else None
+                    if x is None or x not in cands:
+                        x = cands[first["root"] % len(cands)]
+                    self.op_export(x, "copy")
                 elif first["o"] == "detached_export":
                     # a Property / Section outside any document
                     self.edit({"o": "new_obj", "kind": first["kind"], "name": "k",
@@ -1562,6 +1894,67 @@ class Exec(object):
                     pass
             if tmp is not None:
                 shutil.rmtree(tmp, ignore_errors=True)
+            for t in self.tmps:
+                shutil.rmtree(t, ignore_errors=True)
+
+
+# ----------------------------------------------------------------------------- counterfactual runs
+def cf_project(ex, side):
+    """What one side of a finished run looked like after each of its own operations: the outcome
+    (carried out / refused), every parentless tree of the side (content, ids numbered by first
+    occurrence, whether a Section is merged) and every list the caller holds on that side. `inputs`
+    is what the side could legitimately read from the other side when the operation started: the
+    Sections of the other side its Sections are merged with (a merged Section keeps a reference to
+    the Section it was merged with; the copy of a merged Section refers to the same one) - their
+    content and their place in their tree."""
+    w = ex.w
+    out = []
+    steps = ex.steps
+
+    def content(node, seen):
+        return {"k": node["k"], "n": node["n"], "a": node["a"], "v": node["v"],
+                "id": seen.setdefault(node["id"], len(seen)), "mg": node["m"] is not None,
+                "s": [content(c, seen) for c in node["s"]], "p": [content(c, seen) for c in node["p"]]}
+
+    def locate(snap, h):
+        for key in sorted(snap["roots"], key=int):
+            todo = [(snap["roots"][key], [])]
+            while todo:
+                n, path = todo.pop()
+                if n["h"] == h:
+                    return path + [n["n"]], n
+                for c in n["s"]:
+                    todo.append((c, path + [n["n"]]))
+        return None, None
+
+    def inputs(snap):
+        res = []
+        for key in sorted(snap["roots"], key=int):
+            if w.side_obj.get(int(key)) != side:
+                continue
+            for n in walk_nodes(snap["roots"][key]):
+                m = n.get("m")
+                if m is None:
+                    continue
+                if m < 0:
+                    res.append("unknown")
+                elif w.side_obj.get(m) != side:
+                    path, node = locate(snap, m)
+                    res.append({"path": path, "tree": strip(node) if node is not None else None})
+        return res
+
+    for i in range(1, len(steps)):
+        st = steps[i]
+        if st["op"] is None or st["op"].get("side") != side:
+            continue
+        snap = st["snap"]
+        seen = {}
+        trees = [content(snap["roots"][key], seen) for key in sorted(snap["roots"], key=int)
+                 if w.side_obj.get(int(key)) == side]
+        lists = [l for li, l in enumerate(snap["lists"]) if w.side_list.get(li) == side]
+        out.append({"o": st["op"]["o"], "ok": "ok" in st["out"], "trees": trees, "lists": lists,
+                    "inputs": inputs(steps[i - 1]["snap"])})
+    return out
 
 
 # ----------------------------------------------------------------------------- canonical forms
@@ -1653,7 +2046,8 @@ class C11(fw.Check):
         "export_leaf_chain",
         "export_leaf_detached_property",
         "export_leaf_chain_reachable",
-        "clone_tree_equal_illtyped_counterexample"]]
+        "clone_tree_equal_illtyped_counterexample",
+        "export_leaf_chain_repeated_ids"]]
     case_timeout = 30
     trusted_base = [
         "Lean 4.33.0 kernel; axioms propext, Classical.choice, Quot.sound only (audited per theorem)",
@@ -1687,7 +2081,13 @@ class C11(fw.Check):
             "copy and its own copy), directed histories in which a child grows in one of two still "
             "equal twins and is moved to the other one and edited there, the twin of a child given "
             "to remove, child lists edited through the list handed out, values taken from a "
-            "Property of the other side; every parentless object and every caller-held list is "
+            "Property of the other side; copies (keep_id or not) put back below / beside / above their "
+            "original, once or twice, then exported and cloned; ids repeated along a path and among "
+            "siblings; counterfactual stream: documents with links / includes in many configurations "
+            "(and merges made only after the copy), copy of a merged Section / the Document / a "
+            "template Section, both sides cleaned, un-merged, linked, finalized, merged and edited in "
+            "turn, each case run again without the operations of either side; "
+            "every parentless object and every caller-held list is "
             "snapshotted after every operation. Non-trivial = the case has at least one edit that "
             "was carried out; distinct = distinct canonical JSON of the case.")
 
@@ -1699,6 +2099,8 @@ class C11(fw.Check):
         for di in range(n_docs):
             shape = {7: "wide", 3: "deep"}.get(di % 10)
             doc = g.doc(linked=(di % 5 == 4), shape=shape)
+            if di % 5 == 2:
+                g.dup_ids(doc)                # ids repeated along a path / among siblings
             n_nodes = 1 + self.count(doc)
             roots = list(range(n_nodes)) if tier == "thorough" or n_nodes <= 6 else \
                 sorted(rng.sample(range(n_nodes), 6))
@@ -1768,12 +2170,76 @@ class C11(fw.Check):
                                         "family": rng.choice(["tup", "tup", "tup3", "str", "date"]),
                                         "root": rng.randrange(1000)},
                               "ops": g.ops(rng.randrange(2, 8), False)})
+            # round 4: a copy put back into the tree of its original (ids repeated along the path with
+            # keep_id), then that tree is the original: export_leaf / clone of the nested copy, of
+            # objects inside it, of the Sections around it. All in the vocabulary of the model.
+            for _ in range(2 if tier == "quick" else 4):
+                side = rng.choice(["copy", "orig", "mixed"])
+                if rng.random() < 0.75:
+                    first = {"o": "export", "root": rng.randrange(n_nodes),
+                             "x": g.sel(rng.choice(["in_lastcopy", "in_lastcopy", "lastcopy", "secprop"]))}
+                else:
+                    first = {"o": "clone", "root": rng.randrange(n_nodes), "children": rng.random() < 0.8,
+                             "keep": rng.random() < 0.5, "style": "kw",
+                             "x": g.sel(rng.choice(["lastsrc", "lastsrc_up", "lastcopy", "doc"]))}
+                case = {"stream": first["o"], "nest": True, "doc": doc, "side": side, "first": first,
+                        "pre": g.nest_ops(), "ops": g.ops(rng.randrange(1, 8), False, mixed=(side == "mixed"))}
+                for _k in range(rng.choice([0, 1, 1, 2])):
+                    # further exports out of the nested copy, from both sides
+                    case["ops"].insert(rng.randrange(0, len(case["ops"]) + 1),
+                                       {"o": "export", "x": g.sel("in_lastcopy"), "sd": rng.choice(["orig", "copy"])}
+                                       if side == "mixed" else {"o": "export", "x": g.sel("in_lastcopy")})
+                cases.append(case)
             if di % 5 == 1:
                 # Section.include (oracle only): the terminology cache of the process is the original
                 side = rng.choice(["copy", "orig", "mixed"])
                 cases.append({"stream": "free", "doc": doc, "side": side,
                               "first": {"o": "include", "root": rng.randrange(100)},
                               "ops": g.ops(rng.randrange(3, 10), True, mixed=(side == "mixed"))})
+        # round 4, counterfactual stream (oracle only): documents with links in many configurations (and
+        # every third time an ordinary document), a copy of a merged Section / of the Document / of
+        # any object, or an export; then both sides are edited in turn, the merged state taken back
+        # and set up again on both. Each case is run three times: as it is, without the operations
+        # on the copy, without the operations on the original (see `counterfactual`).
+        for ci in range(75 if tier == "quick" else 500):
+            if ci % 3 == 2:
+                doc = g.doc(linked=(ci % 2 == 0), shape={5: "deep", 11: "wide"}.get(ci % 12))
+                g.all_oids(doc)
+            else:
+                doc = g.link_doc()
+            term = None
+            if ci % 6 == 3:
+                term, doc = g.inc_pair()       # merged through `include` instead of `link`
+            n_nodes = 1 + self.count(doc)
+            for _ in range(3):
+                x = rng.random()
+                if x < 0.65:
+                    first = {"o": "clone", "root": rng.randrange(n_nodes), "children": rng.random() < 0.75,
+                             "keep": rng.random() < 0.4, "style": rng.choice(["kw", "kw", "pos"]),
+                             "x": g.sel(rng.choice(["merged", "merged", "doc", "any", "sec"]))}
+                else:
+                    first = {"o": "export", "root": rng.randrange(n_nodes),
+                             "x": g.sel(rng.choice(["merged", "merged", "secprop"]))}
+                if ci % 5 == 4 and term is None:
+                    # the document cached by a TemplateHandler is the original (the links of the file
+                    # are resolved when it is loaded), the Section clone_section hands out the copy
+                    first = {"o": "template", "root": rng.randrange(100), "children": rng.random() < 0.8,
+                             "keep": rng.random() < 0.5, "style": rng.choice(["kw", "pos"]),
+                             "x": g.sel(rng.choice(["merged", "merged", "sec"]))}
+                case = {"stream": "free", "cf": True, "doc": doc, "side": "mixed", "first": first,
+                        "ops": g.cf_ops()}
+                if rng.random() < 0.3:
+                    case["pre"] = [op for op in g.cf_ops()[:3]]
+                if term is not None:
+                    case["term"] = term
+                if rng.random() < 0.2 and first["o"] != "template":
+                    # merged only after the copy was made (see late_merge); the copy is the Document's
+                    case["first"] = {"o": "clone", "root": 0, "children": True, "keep": rng.random() < 0.4,
+                                     "style": "kw", "x": g.sel("doc")}
+                    case["ops"] = g.late_merge(case["ops"][:rng.randrange(0, 4)])
+                    case["doc"] = g.unlinked(doc)
+                    case.pop("term", None)
+                cases.append(case)
         return cases
 
     @staticmethod
@@ -1784,7 +2250,19 @@ class C11(fw.Check):
 
     # -- implementation ------------------------------------------------------
     def impl(self, case):
-        return Exec(case).run()
+        ex = Exec(case)
+        obs = ex.run()
+        if case.get("cf") and "steps" in obs:
+            # the counterfactual runs: the same case with the operations of the other side left out
+            cf = {}
+            for side in ("orig", "copy"):
+                ctl = Exec(dict(case, ops=[op for op in case["ops"] if op.get("sd") == side]))
+                cobs = ctl.run()
+                if "steps" not in cobs or ex.guarded or ctl.guarded:
+                    continue
+                cf[side] = {"full": cf_project(ex, side), "ctl": cf_project(ctl, side)}
+            obs["cf"] = cf
+        return obs
 
     # -- model ---------------------------------------------------------------
     @staticmethod
@@ -1906,6 +2384,45 @@ class C11(fw.Check):
                 pass
             if len(out) > 6:
                 break
+        out += self.counterfactual(obs)
+        return out
+
+    @staticmethod
+    def counterfactual(obs):
+        """Independence over the rest of the history, hidden state included: what the original does
+        under its own operations is the same whether or not the copy is edited in between (and what
+        the copy does is the same whether or not the original is edited): the run with the operations
+        of the other side left out must show the same outcomes, trees and lists on this side, step
+        by step. Weaker reading where one side legitimately reads the other: a Section keeps a
+        reference to the Section it is merged with, and the copy of a merged Section refers to the
+        same one; from the first operation on at which such a Section of the other side (content or
+        place) is not what it is in the run without the other side's edits, nothing more is
+        demanded of this side."""
+        out = []
+        for side, runs in sorted((obs.get("cf") or {}).items()):
+            full, ctl = runs["full"], runs["ctl"]
+            other = "copy" if side == "orig" else "original"
+            this = "original" if side == "orig" else "copy"
+            k = 0
+            for k, (a, b) in enumerate(zip(full, ctl)):
+                if a["inputs"] != b["inputs"] or "unknown" in a["inputs"]:
+                    k = None
+                    break
+                if a["o"] != b["o"]:
+                    out.append("counterfactual: operation %d on the %s is %s, without the edits of the %s it is %s"
+                               % (k, this, a["o"], other, b["o"]))
+                    k = None
+                    break
+                if (a["ok"], a["trees"], a["lists"]) != (b["ok"], b["trees"], b["lists"]):
+                    out.append("counterfactual: after operation %d (%s) on the %s its state depends on whether the "
+                               "%s was edited in between: %s %s %s, without those edits: %s %s %s"
+                               % (k, a["o"], this, other, a["ok"], fw.canon(a["trees"])[:700], a["lists"],
+                                  b["ok"], fw.canon(b["trees"])[:700], b["lists"]))
+                    k = None
+                    break
+            if k is not None and len(full) != len(ctl):
+                out.append("counterfactual: the %s went through %d operations, without the edits of the %s "
+                           "through %d" % (this, len(full), other, len(ctl)))
         return out
 
     @staticmethod
@@ -2051,8 +2568,8 @@ class C11(fw.Check):
         if "steps" not in obs:
             return (case["stream"] + ":failed", False)
         done = sum(1 for s in obs["steps"][1:] if "ok" in s["out"])
-        return ("%s%s:%s:%s" % (case["stream"], "+twins" if case.get("twins") else "", case["first"]["o"],
-                                case.get("side")), done >= 2)
+        extra = "".join("+" + k for k in ("twins", "nest", "cf") if case.get(k))
+        return ("%s%s:%s:%s" % (case["stream"], extra, case["first"]["o"], case.get("side")), done >= 2)
 
     def finding_key(self, case, obs, failure):
         return None
